@@ -16,8 +16,7 @@ def bounds(tier):
 
 def conditions(tier):
     cs = _c.shape_conditions("compile_agrees", "c06", ["feature", "rule1", "rules"])
-    if tier == "thorough":
-        cs += _c.shape_conditions("compile_history", "c06", ["feature", "rule1", "rules"], T=1800)
+    cs += _c.shape_conditions("compile_history", "c06", ["rule1"] if tier == "quick" else ["feature", "rule1", "rules"], T=1800)
     cs += _c.source_level(tier)
     cs.append(Cond(_c.M, "twin_never_pickles", {"ctx": "feature"}, T=120, expect="cex"))
     return cs
